@@ -39,7 +39,7 @@ func init() {
 		Init:             core.QuietLogs,
 		PanicIsViolation: true,
 		Floors: func(tier string) map[string]int64 {
-			return map[string]int64{"bursts": 200, "messages_after_stop_or_panic": 60, "receive_panics_contained": 40, "peer_stopped_by_reactor": 40}
+			return map[string]int64{"bursts": 200, "messages_after_stop_or_panic": 20, "receive_panics_contained": 20, "peer_stopped_by_reactor": 25}
 		},
 	})
 }
